@@ -195,6 +195,10 @@ def run(repo: Repo, rep: Report, tier: str) -> None:
                         if t_.startswith(k_.name + "(") and t_.endswith(".replacements"):
                             applied.add(k_.name)
         missing = sorted({call_name(c) for c in used} - applied)
+        handed = [ccf.text(kwarg(c, "signal_refs")) for c in calls_in(cf.node, "LayoutPlanner") if kwarg(c, "signal_refs") is not None]
+        repointed_objs = {t_ for c_ in calls_in(cf.node) for t_ in [ccf.text(a_) for a_ in c_.args[:1]] if t_.endswith(".signal_refs") and any(ccf.text(a2).endswith(".replacements") for a2 in c_.args[1:])}
+        if handed and not set(handed) <= repointed_objs:
+            missing = missing + [f"planner receives {handed[0][-40:]!r}, not the re-pointed table"]
         repointed = not missing
         rep.check((not passes_names) or repointed, "C20-R6", f"{cf.short} re-points the name table after node-eliminating passes",
                   f"replacements of {sorted(applied)} are applied to signal_refs" if repointed else
